@@ -314,6 +314,8 @@ def run(tier, seed):
         c05_schemes.add_obligations(chk, funcs)
     except ImportError:
         chk.notes.append("O8 (scheme constructor key map) not built yet")
+    # ---- O9: every tabulated rule is delivered unchanged by its scheme constructor (real code, exhaustive over the keys) ----
+    guarded(chk, "O9 constructors deliver the tabulated rule", constructor_obligations, chk, funcs)
     chk.vacuity.update(dict(rules=n_rules, queries=len(queries), families=len(funcs)))
     if n_rules < 1:
         chk.error("no table entries found")
@@ -321,6 +323,53 @@ def run(tier, seed):
                             note="nodes/weights are the exact decimals of the source text"))
     smt.close_pool()
     return chk.finish()
+
+
+CONSTRUCTORS = {   # table function -> (scheme constructor, request for a key)
+    "log_quadrature_rule": ("log_quadrature_scheme", lambda k: k),
+    "log_log_quadrature_rule": ("log_log_quadrature_scheme", lambda k: k),
+    "sqrt_quadrature_rule": ("sqrt_quadrature_scheme", lambda k: k),
+    "sqrtinv_quadrature_rule": ("sqrtinv_quadrature_scheme", lambda k: k),
+    "gauss_sqrtinv_quadrature_rule": ("gauss_sqrtinv_quadrature_scheme", lambda N: (2 * N - 1,)),
+    "gauss_x_quadrature_rule": ("gauss_x_quadrature_scheme", lambda N: (2 * N - 1,)),
+    "gauss_log_quadrature_rule": ("gauss_log_quadrature_scheme", lambda N: (2 * N - 1,)),       # N = (N_poly + 1) // 2
+}
+
+
+def constructor_obligations(chk, funcs):
+    """For every key of every table the scheme constructor of src/quadrature.py, asked for the degrees that key advertises, must
+    hand out exactly the nodes and weights of that key (finite and exhaustive: executed on the real code for each key)."""
+    import importlib
+    import numpy as np
+    Q = importlib.import_module("src.quadrature")
+    T = importlib.import_module(MOD)
+    for fname, (cname, req) in CONSTRUCTORS.items():
+        if fname not in funcs:
+            continue
+        chk.under_contract("src.quadrature:{}".format(cname))
+        for key, _ in funcs[fname]["keys"]:
+            args = req(key) if isinstance(key, tuple) else req(key)
+            args = args if isinstance(args, tuple) else (args,)
+            name = "C05/src.quadrature:{}/{}/O9-constructor-delivers-the-tabulated-rule".format(cname, keystr(key))
+            try:
+                want = getattr(T, fname)(*(key if isinstance(key, tuple) else (key,)))
+                got = getattr(Q, cname)(*args)
+                ok = (want is not None and got is not None and np.array_equal(np.asarray(got.points), np.asarray(want[0]))
+                      and np.array_equal(np.asarray(got.weights), np.asarray(want[1])))
+                detail = {} if ok else dict(request=args, got_points=None if got is None else int(np.size(got.points)),
+                                            want_points=None if want is None else len(want[0]))
+            except Exception as e:      # noqa
+                ok, detail = False, dict(request=args, raised=repr(e)[:200])
+            if ok:
+                chk.add(Ob(name, DISCHARGED, backend="cpython-exhaustive"))
+            else:
+                code = ("from src import quadrature as Q, quadrature_rules as T\nimport numpy as np\nraises_is_violation = True\n"
+                        "want = T.{f}(*{k!r})\ngot = Q.{c}(*{a!r})\nobserved = dict(got=len(got.points), want=len(want[0]))\n"
+                        "violated = not (np.array_equal(got.points, np.array(want[0])) and np.array_equal(got.weights, np.array(want[1])))\n"
+                        ).format(f=fname, c=cname, k=key if isinstance(key, tuple) else (key,), a=args)
+                ob = Ob(name, FAILED, backend="cpython-exhaustive", detail=detail)
+                attach(ob, code, True, bucket="O9")
+                chk.add(ob)
 
 
 def moment_replay_code(md):
